@@ -255,6 +255,25 @@ func (w *World) oracleHandover(bi *BlockInfo) {
 				w.probe("system-txs-16+")
 			}
 		}
+		perKind := map[string]int{}
+		for _, g := range bi.ELBlock.GoatTxs {
+			k, _ := goatTxKey(g)
+			if k == "refund" {
+				k = "paid" // paid and refunded withdrawals share one cap
+			}
+			perKind[k]++
+		}
+		for _, kc := range []struct {
+			kind string
+			cap  int
+		}{{"btcblock", 1}, {"deposit", 8}, {"paid", 8}, {"reward", 16}, {"unlock", 16}} {
+			if perKind[kc.kind] > kc.cap {
+				w.violate("C06", "per-block-cap-exceeded", "cap-"+kc.kind, "height %d: %d %s system transactions in one execution block, cap %d", b.Height, perKind[kc.kind], kc.kind, kc.cap)
+			}
+			if perKind[kc.kind] == kc.cap && kc.cap > 1 {
+				w.probe("handover-at-cap-" + kc.kind)
+			}
+		}
 		for _, g := range bi.ELBlock.GoatTxs {
 			switch g.Module {
 			case goattypes.BirdgeModule:
